@@ -458,6 +458,7 @@ class ModelReproducesMasters(Contract):
                 "2axes-cross", "3axes-axes-and-corner")
     level = "PF"
     max_paths = 200000
+    deadline_s = 2400       # the thorough-only shapes take several minutes each on a busy machine
 
     def variants_for(self, tier):
         return self.variants[:6] if tier == "quick" else self.variants
